@@ -123,6 +123,16 @@ fn mk_node_ck(medium: Medium, last: u8, seed: u64, ck_tx_only: bool) -> Node {
     );
     ic.bind(icmp::Endpoint::Ident(0x1234)).unwrap();
     let icmp = sockets.add(ic);
+    // two more ICMP sockets, bound to the ICMP errors about the UDP port 7 / the TCP port 80 of this node
+    // (icmp::Socket::accepts_v4 / accepts_v6 parse the quoted datagram of an error only for such sockets)
+    for ep in [icmp::Endpoint::Udp(7u16.into()), icmp::Endpoint::Tcp(80u16.into())] {
+        let mut e = icmp::Socket::new(
+            icmp::PacketBuffer::new(vec![icmp::PacketMetadata::EMPTY; 2], vec![0; 512]),
+            icmp::PacketBuffer::new(vec![icmp::PacketMetadata::EMPTY; 2], vec![0; 512]),
+        );
+        e.bind(ep).unwrap();
+        sockets.add(e);
+    }
     let rw = raw::Socket::new(
         Some(if medium == Medium::Ieee802154 { IpVersion::Ipv6 } else { IpVersion::Ipv4 }),
         Some(IpProtocol::Unknown(253)),
@@ -380,6 +390,52 @@ fn handmade_seeds(medium: Medium) -> Vec<Vec<u8>> {
         if d.emit(&mut DhcpPacket::new_unchecked(&mut pl[..])).is_ok() {
             if let Some(f) = wrap_l2(medium, ipv4_udp(srv, Ipv4Address::BROADCAST, 67, 68, &pl), false) {
                 v.push(f);
+            }
+        }
+    }
+    // ICMPv4 / ICMPv6 errors (destination unreachable, time exceeded) about a UDP datagram from port 7 and a TCP
+    // segment from port 80 of the target; the quote is complete or cut after 0, 1, 4, 7, 8, 19, 20 octets of the
+    // transport header while the quoted IP header still announces the whole datagram (RFC 792 / RFC 4443 2.4(c))
+    {
+        let me6 = ll_addr(medium, 1);
+        let peer6 = ll_addr(medium, 2);
+        let udp_q = ipv4_udp(me4, srv, 7, 9999, b"quoted-udp")[20..].to_vec();
+        let mut tcp_q = vec![0u8; 24];
+        tcp_q[0..2].copy_from_slice(&80u16.to_be_bytes());
+        tcp_q[2..4].copy_from_slice(&40001u16.to_be_bytes());
+        tcp_q[12] = 0x50;
+        tcp_q[13] = 0x10;
+        for (proto, q) in [(IpProtocol::Udp, &udp_q), (IpProtocol::Tcp, &tcp_q)] {
+            for cut in [q.len(), 0, 1, 4, 7, 8, 19, 20] {
+                if cut > q.len() {
+                    continue;
+                }
+                let h4 = Ipv4Repr { src_addr: me4, dst_addr: srv, next_header: proto, payload_len: q.len(), hop_limit: 63 };
+                for r4 in [
+                    Icmpv4Repr::DstUnreachable { reason: Icmpv4DstUnreachable::PortUnreachable, header: h4, data: &q[..cut] },
+                    Icmpv4Repr::TimeExceeded { reason: Icmpv4TimeExceeded::TtlExpired, header: h4, data: &q[..cut] },
+                ] {
+                    let ip = Ipv4Repr { src_addr: srv, dst_addr: me4, next_header: IpProtocol::Icmp, payload_len: r4.buffer_len(), hop_limit: 64 };
+                    let mut buf = vec![0u8; 20 + r4.buffer_len()];
+                    ip.emit(&mut Ipv4Packet::new_unchecked(&mut buf[..]), &Default::default());
+                    r4.emit(&mut Icmpv4Packet::new_unchecked(&mut buf[20..]), &Default::default());
+                    if let Some(f) = wrap_l2(medium, buf, false) {
+                        v.push(f);
+                    }
+                }
+                let h6 = Ipv6Repr { src_addr: me6, dst_addr: peer6, next_header: proto, payload_len: q.len(), hop_limit: 63 };
+                for r6 in [
+                    Icmpv6Repr::DstUnreachable { reason: Icmpv6DstUnreachable::PortUnreachable, header: h6, data: &q[..cut] },
+                    Icmpv6Repr::TimeExceeded { reason: Icmpv6TimeExceeded::HopLimitExceeded, header: h6, data: &q[..cut] },
+                ] {
+                    let ip = Ipv6Repr { src_addr: peer6, dst_addr: me6, next_header: IpProtocol::Icmpv6, payload_len: r6.buffer_len(), hop_limit: 64 };
+                    let mut buf = vec![0u8; 40 + r6.buffer_len()];
+                    ip.emit(&mut Ipv6Packet::new_unchecked(&mut buf[..]));
+                    r6.emit(&peer6, &me6, &mut Icmpv6Packet::new_unchecked(&mut buf[40..]), &Default::default());
+                    if let Some(f) = wrap_l2(medium, buf, true) {
+                        v.push(f);
+                    }
+                }
             }
         }
     }
